@@ -162,13 +162,21 @@ func cmdEnum(args []string) {
 			keys := []int{}
 			var e error
 			wv := rng.Intn(2) == 0
+			badvals := 0
 			pm := guard(func() {
 				e = c.VisitItemsAscendBlockEx(wv, manglers[mn], func(i *gkvlite.Item, d uint64) bool {
 					keys = append(keys, kid(i.Key))
+					// the value stored under key p+1 is the single byte p; with withValue
+					// it must be there, without it it may be absent but never wrong
+					want := byte(binary.BigEndian.Uint32(i.Key) - 1)
+					if (wv && (len(i.Val) != 1 || i.Val[0] != want)) || (!wv && i.Val != nil && (len(i.Val) != 1 || i.Val[0] != want)) {
+						badvals++
+					}
 					return true
 				})
 			})
-			emit(Ev{"e": "Enum", "api": "block", "n": n, "mode": mode, "cmp": v.cmp, "mangler": mn, "keys": keys, "len": 0, "err": e != nil, "panic": pm != ""})
+			emit(Ev{"e": "Enum", "api": "block", "n": n, "mode": mode, "cmp": v.cmp, "mangler": mn, "keys": keys, "len": 0, "err": e != nil, "panic": pm != "",
+				"wv": wv, "badvals": badvals})
 			if pm != "" {
 				poisoned = true
 				break
